@@ -683,8 +683,10 @@ remove_job_from_pattern		(vbi3_raw_decoder *	rd,
 		end = pattern + _VBI3_RAW_DECODER_MAX_WAYS;
 
 		/* Remove jobs with job_num, fill up pattern with 0.
-		   Jobs above job_num move down in rd->jobs. */
-		for (src = dst; src < end; ++src) {
+		   Jobs above job_num move down in rd->jobs. The last
+		   way is not a job but the blank line prediction
+		   counter of decode_pattern(), it stays in place. */
+		for (src = dst; src < end - 1; ++src) {
 			int8_t num = *src;
 
 			if (num > job_num)
@@ -693,7 +695,7 @@ remove_job_from_pattern		(vbi3_raw_decoder *	rd,
 				*dst++ = num;
 		}
 
-		while (dst < end)
+		while (dst < end - 1)
 			*dst++ = 0;
 
 		pattern = end;
